@@ -206,6 +206,9 @@ def ref_metrics(times, x, qs, rf_cagr=None, bm=None):
         out[("es_fragile", q)] = fragile
         out[("value_at_risk", q)] = Q(var, 1e-13 * rmax)
         out[("expected_shortfall", q)] = Q(es[0], 1e-13 * rmax, alts=es, skip="es-band" if band else None)
+    # a daily return within rounding of zero (levels one ulp apart) may land on either side of the `> 0` / `< 0`
+    # selection once the levels are multiplied by a constant that is not a power of two
+    out["sign_fragile"] = bool(np.any((r != 0) & (np.abs(r) < 1e-12)))
     out["downside_volatility"] = Q(SQ * ref_std(r[r < 0]), 1e-13 * SQ * rmax)
     out["upside_volatility"] = Q(SQ * ref_std(r[r > 0]), 1e-13 * SQ * rmax)
     out["martin_risk"] = Q(math.sqrt(float(np.mean(dd ** 2))), 1e-13)
@@ -714,6 +717,9 @@ def run_scale(case):
             ref = refs[j][key]
             if ref.skip == "denominator<1e-12":
                 exclude(res, ref.skip)
+                continue
+            if key in ("downside_volatility", "upside_volatility", "sortino_ratio") and not pow2 and refs[j]["sign_fragile"]:
+                exclude(res, "sign-band")
                 continue
             if key[0] == "expected_shortfall" and not pow2 and refs[j][("es_fragile", qv)]:
                 exclude(res, "es-band")
